@@ -83,6 +83,7 @@ type Run struct {
 	extra     map[string]interface{}
 	notes     []string
 	inconcl   []string
+	lastPhase time.Time
 }
 
 // NewRun creates the run state.
@@ -474,3 +475,17 @@ var internals = map[string]func(args []string, seed int64, dir string) int{}
 
 // Internal returns an internal sub-command handler.
 func Internal(name string) func(args []string, seed int64, dir string) int { return internals[name] }
+
+// Phase logs the wall time since the previous phase mark (diagnostics only;
+// no verdict depends on it).
+func (r *Run) Phase(name string) {
+	now := time.Now()
+	r.mu.Lock()
+	if r.lastPhase.IsZero() {
+		r.lastPhase = r.Start
+	}
+	d := now.Sub(r.lastPhase)
+	r.lastPhase = now
+	r.mu.Unlock()
+	fmt.Printf("  phase %-40s %.1fs\n", name, d.Seconds())
+}
